@@ -479,6 +479,99 @@ theorem C09_route_partial (vs : Variants) (typ fb : String) (hn : factoryName ty
     C09_unserved_is_rejected vs typ fb rom oc healthy listers (Or.inr h2),
     C09_reject_status vs typ fb rom oc healthy listers (Or.inr hn), C09_fallback_all, C09_decision_agrees]
 
+/-! ### The candidate constraint (round 4): the refreshed fallback never leaves the caller's candidates
+
+`routeC` is `route` behind `restrictToCandidates`.  The caller's list is what the route allows (the provider handler hands
+in that provider's endpoints only — C11), so "returned ⊆ candidates" is the strategy's share of C11. -/
+
+private theorem filter_contains_self (h : List Ep) : h.filter (fun e => h.contains e) = h := by
+  apply List.filter_eq_self.mpr
+  intro a ha
+  simpa using ha
+
+/-- the production discovery service hands back the list it was asked about: the restriction is the identity there -/
+theorem routeC_ok_self (vs : Variants) (typ fb : String) (rom : Bool) (h m : List Ep) :
+    routeC vs typ fb rom (.ok h) h m = route vs typ fb rom (.ok h) h m := by
+  unfold routeC
+  cases vs.discoveryCandidates with
+  | pinned => rfl
+  | fixed =>
+    show route vs typ fb rom (.ok (h.filter (fun e => h.contains e))) h m = _
+    rw [filter_contains_self]
+
+private theorem route_indep_of_outcome (vs : Variants) (typ fb : String) (hn : factoryName typ ≠ strategyDiscovery)
+    (rom : Bool) (oc oc' : Refresh) (h m : List Ep) :
+    route vs typ fb rom oc h m = route vs typ fb rom oc' h m := by
+  unfold route
+  simp [hn]
+
+private theorem within_of_shape {h m cur : List Ep} {snd stok : Bool} {O : Obs} (hs : Shape h m cur snd stok O)
+    (hcur : ∀ e ∈ cur, e ∈ h) : clauseWithinCandidates h O = true := by
+  unfold clauseWithinCandidates
+  cases hs with
+  | routed s r hne =>
+    simp only [List.all_eq_true]
+    intro e he
+    simpa using (mem_routable.mp he).1
+  | fallback s r l hl hnone hns =>
+    simp only [List.all_eq_true]
+    intro e he
+    rcases hl with rfl | rfl
+    · simpa using he
+    · simpa using hcur e he
+  | rejected s r st hnone hst => simp
+
+private theorem cur_within (oc : Refresh) (h : List Ep) : ∀ e ∈ currentHealthy (effOutcome .fixed oc h) h, e ∈ h := by
+  intro e he
+  cases oc with
+  | ok u =>
+    simp only [effOutcome, currentHealthy, List.mem_filter] at he
+    simpa using he.2
+  | refreshFailed => simpa [effOutcome, currentHealthy] using he
+  | getHealthyFailed => simpa [effOutcome, currentHealthy] using he
+
+/-- **Clause 0** — with the candidates fix, whatever any strategy returns, under any configuration and after any
+    refresh outcome (whatever list the discovery service hands back), was offered by the caller as a candidate. -/
+theorem C09_within_candidates (vs : Variants) (hv : vs.discoveryCandidates = .fixed) (typ fb : String) (rom : Bool)
+    (oc : Refresh) (healthy listers : List Ep) :
+    clauseWithinCandidates healthy (Obs.ofRouted (routeC vs typ fb rom oc healthy listers)) = true := by
+  unfold routeC
+  rw [hv]
+  exact within_of_shape
+    (shape_route vs typ fb rom (effOutcome .fixed oc healthy) healthy listers false false (by simp) (by simp))
+    (cur_within oc healthy)
+
+/-- Pinned tree: candidates [0] (the provider's endpoint), nobody lists the model, the refresh reports endpoints 0 and 1
+    healthy, fallback all: endpoint 1 — never offered — is returned. -/
+theorem C09_within_candidates_pinned_witness :
+    clauseWithinCandidates [0]
+      (Obs.ofRouted (routeC allPinned strategyDiscovery fallbackAll true (.ok [0, 1]) [0] [])) = false := by decide
+
+/-- Strict and optimistic never look at the refreshed list: inside the candidates on every tree. -/
+theorem C09_within_candidates_partial (vs : Variants) (typ fb : String) (hn : factoryName typ ≠ strategyDiscovery)
+    (rom : Bool) (oc : Refresh) (healthy listers : List Ep) :
+    clauseWithinCandidates healthy (Obs.ofRouted (routeC vs typ fb rom oc healthy listers)) = true := by
+  unfold routeC
+  rw [route_indep_of_outcome vs typ fb hn rom _ .refreshFailed]
+  exact within_of_shape
+    (shape_route vs typ fb rom .refreshFailed healthy listers false false (by simp) (by simp))
+    (fun e he => by simpa [currentHealthy] using he)
+
+/-- All clauses, candidate constraint included, for the tree as it is now (all three discovery fixes). -/
+theorem C09_routeC_fixed (vs : Variants) (h1 : vs.discoveryReasons = .fixed) (h2 : vs.discoveryErrorFallback = .fixed)
+    (h3 : vs.discoveryCandidates = .fixed) (typ fb : String) (rom : Bool) (oc : Refresh) (healthy listers : List Ep) :
+    routeViolationC typ fb rom oc healthy listers (Obs.ofRouted (routeC vs typ fb rom oc healthy listers)) = none := by
+  unfold routeViolationC
+  rw [C09_within_candidates vs h3]
+  simp only [Bool.not_true, Bool.false_eq_true, if_false]
+  unfold routeC
+  rw [h3]
+  exact C09_route_fixed vs h1 h2 typ fb rom _ healthy listers
+
+example : routeViolationC strategyDiscovery fallbackAll true (.ok [0, 1, 2]) [0, 2] []
+    (Obs.ofRouted (routeC active strategyDiscovery fallbackAll true (.ok [0, 1, 2]) [0, 2] [])) = none ∧
+    (routeC active strategyDiscovery fallbackAll true (.ok [0, 1, 2]) [0, 2] []).eps = [0, 2] := by decide
+
 /-! ### Handlers: client status and headers -/
 
 /-- What a client observes when the balancer picks `pick` out of the endpoints the handler forwards to
@@ -555,6 +648,7 @@ private theorem effectiveRoute_shape (vs : Variants) (typ fb : String) (rom : Bo
     (hstok : stok = true → vs.wiring = .pinned ∨ vs.discoveryReasons = .fixed ∨ factoryName typ ≠ strategyDiscovery) :
     Shape healthy listers healthy snd stok (Obs.ofRouted (effectiveRoute vs typ fb rom healthy listers)) := by
   unfold effectiveRoute
+  rw [routeC_ok_self]
   cases hw : vs.wiring with
   | pinned =>
     simp only
@@ -615,7 +709,7 @@ theorem C09_http_fixed (vs : Variants) (h1 : vs.handlerStatus = .fixed) (h2 : vs
     (fun _ => Or.inr (Or.inl h3))
   have c5 := C09_fallback_all vs typ fb rom (.ok healthy) healthy listers
   have hroute : effectiveRoute vs typ fb rom healthy listers = route vs typ fb rom (.ok healthy) healthy listers := by
-    unfold effectiveRoute; simp [h2]
+    unfold effectiveRoute; simp [h2, routeC_ok_self]
   rw [← hroute] at c5
   have hc := handle_cases vs h typ fb rom healthy listers
   generalize effectiveRoute vs typ fb rom healthy listers = R at hs c5 hc
